@@ -31,6 +31,7 @@ CONSTANTS MaxNodes,      \* nodes per document
           Kinds,         \* node kinds generated: subset of {"s", "q", "m"}
           LeafKinds,     \* kinds of nodes without node children
           KeyFillers,    \* plain keys generated: subset of {"k", "M", "V"}
+          ValFillers,    \* plain values generated: subset of {"x", "E"} ("E": the empty string, written '')
           MustChain,     \* BOOLEAN: every node after the first refers to its predecessor (no unrelated top nodes)
           ConvFail       \* "err" | "crash": what a converter does on text outside its grammar (see DESIGN D2)
 
@@ -83,7 +84,7 @@ StartsWith(t, p) == IsPrefixTok(Tok(p), TagTok(t))
 TagsOver(bs) == {[b |-> b, n |-> "-"] : b \in {x \in bs : ~WithName(x)}}
                 \cup {[b |-> b, n |-> n] : b \in {x \in bs : WithName(x)}, n \in Names \cup {"e"}}
 
-S(x) == [id |-> 0, s |-> x]            \* an untagged plain scalar: "x" filler, "k" key, "M" the merge key <<, "V" the value key =
+S(x) == [id |-> 0, s |-> x]            \* an untagged scalar: "x" filler, "E" the empty string '', "k" key, "M" the merge key <<, "V" the value key =
 N(i) == [id |-> i, s |-> ""]           \* a reference to node i
 IsRef(v) == v.id # 0
 Range(s) == {s[i] : i \in DOMAIN s}
@@ -94,7 +95,7 @@ Reverse(s) == [i \in DOMAIN s |-> s[Len(s) + 1 - i]]
 \* the node a reference denotes; plain scalars are implicit nodes with the tag the resolver gives them
 NodeOf(h, v) == IF IsRef(v) THEN h[v.id]
                 ELSE [k |-> "s", t |-> [b |-> (CASE v.s = "M" -> "merge" [] v.s = "V" -> "value" [] OTHER -> "str"), n |-> "-"],
-                      v |-> "b", e |-> <<>>, fl |-> FALSE]
+                      v |-> (IF v.s = "E" THEN "e" ELSE "b"), e |-> <<>>, fl |-> FALSE]
 \* BaseLoader has no implicit resolvers: every plain scalar is a str
 NodeOfC(c, h, v) == IF ~IsRef(v) /\ c = "Base" THEN [NodeOf(h, v) EXCEPT !.t = [b |-> "str", n |-> "-"]] ELSE NodeOf(h, v)
 
@@ -118,12 +119,63 @@ OffendsSafe(t) == t.b \notin Core12 \cup Repo3
 \* C04: "the object-construction tags (python/object, python/object/new, python/object/apply, python/module) are rejected"
 OffendsFull(t) == \E p \in ObjBases : StartsWith(t, p)
 
+(***************************************************************************)
+(* Where a node is USED AS A VALUE.  YAML 1.1 gives three constructs in    *)
+(* which a collection node is syntax of its parent and not a value of its  *)
+(* own: the value of a merge key "<<" (a mapping, or a sequence of         *)
+(* mappings, whose entries become entries of the parent), the one-entry    *)
+(* mappings that are the elements of an !!omap / !!pairs sequence, and the *)
+(* default-value key "=" (a mapping that carries a scalar type stands for  *)
+(* the value of its "=" key).  The known finding "structural-use" is that  *)
+(* the tag of a node in such a position is not examined; nodes below a     *)
+(* "="-mapping other than its "=" value are not looked at at all.          *)
+(* Everywhere else - root, sequence element, mapping key, mapping value,   *)
+(* set member, key and value of an omap entry and of a merged mapping,     *)
+(* elements of a collection that carries a scalar type - a node is a value *)
+(* and "rejected" applies to its tag.  Written from the YAML 1.1 types     *)
+(* (which tags are mapping / pair-list types); no tables, no constructors. *)
+(* A use is [id, m]: "obj" a value; "msrc" merged mapping; "mlist" merge   *)
+(* list; "pair" omap/pairs entry; "eqv" the value of a "=" key.            *)
+(***************************************************************************)
+MapTags  == {"map", "set", "py/dict"}
+PairTags == {"omap", "pairs"}
+U(i, m) == [id |-> i, m |-> m]
+RefUses(vs, m) == {U(v.id, m) : v \in {x \in vs : IsRef(x)}}
+KVUses(nd) == UNION {RefUses({nd.e[j].k, nd.e[j].v}, "obj") : j \in DOMAIN nd.e}
+IsValueKey(c, h, k) == NodeOfC(c, h, k).t.b = "value"
+HasValueKey(c, h, nd) == \E j \in DOMAIN nd.e : IsValueKey(c, h, nd.e[j].k)
+FirstValue(c, h, nd) == nd.e[CHOOSE j \in DOMAIN nd.e : IsValueKey(c, h, nd.e[j].k) /\ \A i \in 1 .. j - 1 : ~IsValueKey(c, h, nd.e[i].k)].v
+EntryUses(c, h, nd) ==      \* a mapping read as a mapping: "<<" values are merged, every other key and value is a value
+  UNION {LET en == nd.e[j] IN
+         IF NodeOfC(c, h, en.k).t.b = "merge"
+         THEN IF IsRef(en.v) THEN {U(en.v.id, CASE h[en.v.id].k = "m" -> "msrc" [] h[en.v.id].k = "q" -> "mlist" [] OTHER -> "obj")} ELSE {}
+         ELSE RefUses({en.k, en.v}, "obj") : j \in DOMAIN nd.e}
+ElemUses(h, nd, m) == {U(v.id, IF h[v.id].k = "m" THEN m ELSE "obj") : v \in {x \in Range(nd.e) : IsRef(x)}}
+ChildUses(c, h, u) ==
+  LET nd == h[u.id] IN
+  CASE nd.k = "s" -> {}
+    [] nd.k = "q" /\ u.m = "obj" /\ nd.t.b \in PairTags -> ElemUses(h, nd, "pair")
+    [] nd.k = "q" /\ u.m = "mlist" -> ElemUses(h, nd, "msrc")
+    [] nd.k = "q" -> RefUses(Range(nd.e), "obj")
+    [] nd.k = "m" /\ (u.m = "msrc" \/ (u.m = "obj" /\ nd.t.b \in MapTags)) -> EntryUses(c, h, nd)
+    [] nd.k = "m" /\ u.m = "pair" -> KVUses(nd)
+    [] nd.k = "m" /\ HasValueKey(c, h, nd) -> RefUses({FirstValue(c, h, nd)}, "eqv")       \* "obj" under a non-mapping type, or "eqv"
+    [] OTHER -> KVUses(nd)
+RECURSIVE UsesFrom(_, _, _, _)
+UsesFrom(c, h, todo, seen) ==
+  IF todo = {} THEN seen
+  ELSE LET u == CHOOSE x \in todo : TRUE
+       IN  UsesFrom(c, h, (todo \cup ChildUses(c, h, u)) \ (seen \cup {u}), seen \cup {u})
+\* the nodes of the document that occur as a value somewhere
+Proper(c, h, tp) == {u.id : u \in {x \in UsesFrom(c, h, {U(i, "obj") : i \in Range(tp)}, {}) : x.m = "obj"}}
+
 Req(c, h, tp) ==
   LET rs == Reach(h, tp)
       off == IF c = "Safe" THEN {i \in rs : OffendsSafe(h[i].t)}
              ELSE IF c = "Full" THEN {i \in rs : OffendsFull(h[i].t)} ELSE {}
   IN [mustErr  |-> off # {},
       off      |-> off,
+      proper   |-> Proper(c, h, tp),
       okTypes  |-> OkTypes(c),
       okEff    |-> OkEff(c),
       yamlOnly |-> YamlOnly(c),
@@ -193,11 +245,16 @@ ScalarOf(c, h, nd, fn) ==
 \* name classes whose module is in sys.modules: a function, a class, a missing attribute, an attribute served by the
 \* module's __getattr__, a builtin, an existing ITERATOR instance, a not yet imported SUBMODULE of an imported package
 \* "pct": a name with a literal '%' (written as the URI escape %25): an attribute that does not exist
-Imported == {"res", "rescls", "noattr", "lazy", "builtin", "iter", "subunimp", "pct"}
+\* "trap": an existing object every method of which records its use (what a converter that is handed the object, not
+\* text, would call).  "alias": a module name that cannot be imported as written but that the interpreter's own
+\* compatibility tables (pickle's fix_imports) translate to an importable, not yet imported standard module: for the
+\* code it is a missing module
+Imported == {"res", "rescls", "noattr", "lazy", "builtin", "iter", "subunimp", "pct", "trap"}
+NoModule == {"missing", "alias"}
 FindName(n, unsafe) ==
   IF n = "e" THEN Err({})
   ELSE LET ie == IF unsafe /\ n \notin Imported THEN {"import"} ELSE {} IN
-       IF n = "missing" THEN Err(ie)
+       IF n \in NoModule THEN Err(ie)
        ELSE IF n \notin Imported /\ ~unsafe THEN Err({})
        ELSE IF n \in {"noattr", "pct"} THEN Err(ie \cup {"modgetattr"})
        ELSE IF n = "subunimp" THEN Err(ie)              \* hasattr(package, 'plugin') is false: nothing is imported
@@ -308,7 +365,7 @@ Con(c, h, v) ==
          IF ~sc.ok \/ sc.v # "e" THEN Err({}) ELSE FindName(d.suf, unsafe)
     [] fn = "py/module:" ->
          IF ~sc.ok \/ sc.v # "e" THEN Err({})
-         ELSE IF d.suf = "e" \/ d.suf = "missing" THEN Err(IF d.suf = "missing" THEN {"import"} ELSE {})
+         ELSE IF d.suf = "e" \/ d.suf \in NoModule THEN Err(IF d.suf \in NoModule THEN {"import"} ELSE {})
          ELSE Ok({"module"}, "module", IF d.suf \in Imported THEN {} ELSE {"import"})
     [] fn \in {"py/object:", "py/object/new:", "py/object/apply:"} ->         \* UnsafeConstructor only; coarse on purpose
          LET f == FindName(d.suf, TRUE) IN
@@ -331,7 +388,7 @@ TopOf(h) == SelectSeq([i \in DOMAIN h |-> i], LAMBDA i : i \notin Referenced(h))
 
 RefsFor(i) == {N(j) : j \in 1 .. i - 1}
 KeySet(i) == {S(f) : f \in KeyFillers} \cup RefsFor(i)
-ValSet(i) == {S("x")} \cup RefsFor(i)
+ValSet(i) == {S(f) : f \in ValFillers} \cup RefsFor(i)
 SeqsUpTo(Sx, n) == UNION {[1 .. m -> Sx] : m \in 0 .. n}
 HasNodeKid(nd) == RefsOfNode(nd) # {}
 \* every node but the last must be referenced by the node built right after it or stay a top node; to keep the space a
@@ -365,13 +422,13 @@ Spec == Init /\ [][Next]_vars
 (* L => H                                                                  *)
 (***************************************************************************)
 \* the code satisfies the statements on every document, except for the named case class "structural-use"
-\* Known finding "structural-use": where the code uses a collection node structurally - the value of a merge key, an
-\* element of a merge list, an element of an !!omap / !!pairs sequence, anything below a mapping that carries a
-\* scalar tag and a '=' key - it never dispatches on that node's own tag, so a foreign tag there is ignored, not
-\* rejected.  H demands rejection there too; Undispatched only names that case class: every offending node is one
-\* the construction never visited (whatever else happened to the load: it satisfies H once the offending nodes are
-\* left out of account).
-Undispatched(c) == req[c].mustErr /\ req[c].off \cap lval[c].vis = {}
+\* Known finding "structural-use": where a collection node is syntax of its parent (Proper above: the value of a merge
+\* key, an element of a merge list, an element of an !!omap / !!pairs sequence, the value of a "=" key, anything else
+\* below a "="-mapping under a scalar type) the code never dispatches on that node's own tag, so a foreign tag there is
+\* ignored, not rejected.  H demands rejection there too; Undispatched names that case class FROM THE DOCUMENT ALONE:
+\* no offending node occurs as a value anywhere.  A document with an offending tag on a value - e.g. below a collection
+\* that carries a scalar type such as "!!null [ !foo x ]" - is outside the finding and must be rejected.
+Undispatched(c) == req[c].mustErr /\ req[c].off \cap req[c].proper = {}
 Confined == \A c \in {"Base", "Safe", "Full"} :
               \/ lval[c].st = "unknown" \/ Sat(lval[c], req[c])
               \/ (Undispatched(c) /\ Sat(lval[c], [req[c] EXCEPT !.mustErr = FALSE]))
@@ -379,4 +436,6 @@ Confined == \A c \in {"Base", "Safe", "Full"} :
 UnsafeInert == lval["Unsafe"].eff = {}
 \* without the exemption the structural-use finding shows up as a counterexample (negative control; must be violated)
 ConfinedStrict == \A c \in {"Base", "Safe", "Full"} : lval[c].st = "unknown" \/ Sat(lval[c], req[c])
+\* L against the H-level notion of use: a load that succeeds has dispatched on exactly the nodes that occur as values
+DispatchExact == \A c \in {"Safe", "Full"} : lval[c].st = "ok" => lval[c].vis = req[c].proper
 =============================================================================
